@@ -42,6 +42,32 @@ func Setter(p *core.Prog, r *core.Report) {
 					used = true
 				}
 			}
+			// Set<Field>(v) stores v into the field of that name, not into a neighbour of the same type
+			if strings.HasPrefix(name, "Set") && len(params) == 1 {
+				want := strings.TrimPrefix(name, "Set")
+				var into []string
+				for _, ref := range core.Refs(prm) {
+					if st, isSt := ref.(*ssa.Store); isSt && st.Val == ssa.Value(prm) {
+						if fa, isFA := st.Addr.(*ssa.FieldAddr); isFA {
+							_, fn, _ := core.FieldOf(fa)
+							into = append(into, fn)
+						}
+					}
+				}
+				if len(into) > 0 {
+					hit := false
+					for _, fn := range into {
+						if fn == want {
+							hit = true
+						}
+					}
+					if hit {
+						r.OK(rule, core.FuncName(f)+":field", p.Pos(f.Pos()), "stores its argument into the field "+want)
+					} else {
+						r.Bad(rule, core.FuncName(f)+":field", p.Pos(f.Pos()), core.FuncName(f)+" stores its argument into "+strings.Join(into, ", ")+" and not into "+want+": the setting asked for keeps its value and another one changes")
+					}
+				}
+			}
 			key := core.FuncName(f) + ":" + prm.Name()
 			if used {
 				r.OK(rule, key, p.Pos(f.Pos()), "the argument is stored, captured or handed on")
